@@ -91,6 +91,7 @@ Definition dec_names (s : sexp) : option names_t := dec_opt (dec_list dec_name) 
 Definition dec_redop (s : sexp) : option redop :=
   match s with
   | SA "tuple" => Some RTuple | SA "single" => Some RSingle | SA "cum" => Some RCum | SA "prod" => Some RProd
+  | SA "aminmax" => Some RAminmax
   | _ => None
   end.
 Definition enc_name (n : option string) : sexp := match n with Some a => SA a | None => SA "none" end.
@@ -131,7 +132,7 @@ Definition dispatch (cmd : string) (args : list sexp) : option sexp :=
   match cmd, args with
   | "binary", [f; cl; d; s; o] =>
       match dec_family f, dec_bool cl, dec_dflt d, dec_items s, dec_operand o with
-      | Some f, Some cl, Some d, Some s, Some o => Some (enc_res enc_bin (binary_plan f cl s o d))
+      | Some f, Some cl, Some d, Some s, Some o => Some (enc_res enc_bin (binary_plan fixed_D49 f cl s o d))
       | _, _, _, _, _ => None
       end
   | "inplace", [f; fx; s; o] =>
@@ -141,7 +142,7 @@ Definition dispatch (cmd : string) (args : list sexp) : option sexp :=
       end
   | "ternary", [fx; s; o1; o2] =>
       match dec_bool fx, dec_items s, dec_operand o1, dec_operand o2 with
-      | Some fx, Some s, Some o1, Some o2 => Some (enc_res enc_tern (ternary_plan (fx || fixed_D18) s o1 o2))
+      | Some fx, Some s, Some o1, Some o2 => Some (enc_res enc_tern (ternary_plan (fx || fixed_D18) fixed_inplace_extra s o1 o2))
       | _, _, _, _ => None
       end
   | "dunder", [d] =>
@@ -170,7 +171,7 @@ Definition dispatch (cmd : string) (args : list sexp) : option sexp :=
       end
   | "reduce", [op; bs; names; dim; kd] =>
       match dec_redop op, dec_shape bs, dec_names names, dec_dim dim, dec_kd kd with
-      | Some op, Some bs, Some names, Some dim, Some kd => Some (enc_res enc_red (front op bs names dim kd))
+      | Some op, Some bs, Some names, Some dim, Some kd => Some (enc_res enc_red (front fixed_reduce op bs names dim kd))
       | _, _, _, _, _ => None
       end
   | _, _ => None
